@@ -99,8 +99,10 @@ func genOp(t *rapid.T) Op {
 	case k < 21:
 		return Op{Kind: "read", I: idx()}
 	case k < 23:
-		return Op{Kind: rapid.SampledFrom([]string{"sub", "gsub"}).Draw(t, "sg"), I: rapid.SampledFrom([]int{0, 1, 2, 3, -1}).Draw(t, "si"),
-			R: rapid.SampledFrom([]string{"a", "b+", "[0-9]", "x*", ",", "q", " ", "^", "$", "é"}).Draw(t, "sr"), S: h.Str(rapid.SampledFrom([]string{"X", "", "&&", "<&>", " ", "a b"}).Draw(t, "ss"))}
+		return Op{Kind: rapid.SampledFrom([]string{"sub", "gsub"}).Draw(t, "sg"), I: rapid.SampledFrom([]int{0, 1, 2, 3, -1, 5, 0, 0}).Draw(t, "si"),
+			// "&" (and "" for the empty matches of ^ $ x*) makes a substitution that leaves the text as it was: it is
+			// an assignment all the same ($0 is rebuilt or re-split, a field beyond NF extends the record)
+			R: rapid.SampledFrom([]string{"a", "b+", "[0-9]", "x*", ",", "q", " ", "^", "$", "é", "^", "$", "."}).Draw(t, "sr"), S: h.Str(rapid.SampledFrom([]string{"X", "", "&&", "<&>", " ", "a b", "&", "&", ""}).Draw(t, "ss"))}
 	case k < 24:
 		return Op{Kind: rapid.SampledFrom([]string{"incr", "decr"}).Draw(t, "id"), I: idx()}
 	case k < 25:
